@@ -13,3 +13,5 @@ mod generated_app;
 mod interner;
 mod path_parameters;
 mod traits;
+#[cfg(pavex_verif)]
+pub mod verif;
